@@ -22,21 +22,26 @@ Proof. split; eexists; reflexivity. Qed.
 
 (* every bit and clear, in every reachable state of the frame decoder: the counter never exceeds 10, so
    `num_bits += 1` and `<< num_bits` stay in range *)
-Lemma inv_bits : inv_ps2 syn_ps2 Ps2Decoder_hash (Ps2Decoder_mk 0 0) = true. Proof. vm_compute. reflexivity. Qed.
-Theorem C08_bits : forall ops : list bit_op,
-  exists s' os, run (ps2_machine syn_ps2) (Ps2Decoder_mk 0 0) ops = Ret (s', os).
-Proof. exact (C08_bitops syn_ps2 _ _ inv_bits). Qed.
+Lemma inv_bits : ps_at_init syn_ps2 false (fun s0 => inv_ps2 syn_ps2 Ps2Decoder_hash s0) = true. Proof. vm_compute. reflexivity. Qed.
+Theorem C08_bits : forall s0, ps_init syn_ps2 = Ret s0 -> forall ops : list bit_op,
+  exists s' os, run (ps2_machine syn_ps2) s0 ops = Ret (s', os).
+Proof. intros s0 Hi. pose proof inv_bits as H. rewrite (ps_at_init_elim _ _ _ _ s0 Hi) in H. exact (C08_bitops syn_ps2 _ _ H). Qed.
 (* the invariant as an abstract list of states (for Props/C08_kb.v) *)
-Lemma ps2_reach : exists sts : list Ps2Decoder, In (Ps2Decoder_mk 0 0) sts /\
+Lemma ps2_reach : forall s0, ps_init syn_ps2 = Ret s0 -> exists sts : list Ps2Decoder, In s0 sts /\
   forall p op, In p sts -> In op all_ops -> exists p' o, m_step (ps2_machine syn_ps2) p op = Ret (p', o) /\ In p' sts.
 Proof.
+  intros s0 Hi. pose proof inv_bits as H. rewrite (ps_at_init_elim _ _ _ _ s0 Hi) in H.
   exact (@kreach_list _ _ (ps2_machine syn_ps2) (ps_eqb syn_ps2) Ps2Decoder_hash all_ops (ps_eqb_ok syn_ps2)
-           (ps2_kstates syn_ps2 Ps2Decoder_hash (Ps2Decoder_mk 0 0)) (Ps2Decoder_mk 0 0) inv_bits).
+           (ps2_kstates syn_ps2 Ps2Decoder_hash s0) s0 H).
 Qed.
 
-Lemma words_ok : panicking_words syn_ps2 (Ps2Decoder_mk 0 0) = []. Proof. vm_compute. reflexivity. Qed.
+Lemma words_ok : ps_at_init syn_ps2 [0] (fun s0 => panicking_words syn_ps2 s0) = []. Proof. vm_compute. reflexivity. Qed.
+Lemma ps2_init_exists : exists s0, ps_init syn_ps2 = Ret s0. Proof. eexists; reflexivity. Qed.
 Theorem C08_word : forall s w, w < 65536 -> ps_add_word syn_ps2 s w <> Panic.
-Proof. exact (C08_words syn_ps2 (Ps2Decoder_mk 0 0) (fun s w => eq_refl) words_ok). Qed.
+Proof.
+  destruct ps2_init_exists as (s0 & Hi). pose proof words_ok as H. rewrite (ps_at_init_elim _ _ _ _ s0 Hi) in H.
+  exact (C08_words syn_ps2 s0 (fun s w => eq_refl) H).
+Qed.
 
 (* every key event, mode change and layout change to the event decoder, for EVERY layout that does not
    panic itself - symbolic, the layout function stays universally quantified *)
